@@ -7,6 +7,8 @@ package c05
 
 import (
 	"fmt"
+	"runtime"
+	"runtime/debug"
 	"sort"
 	"strings"
 	"testing"
@@ -15,6 +17,10 @@ import (
 	"verifharness/gen"
 	"verifharness/pbt"
 )
+
+// The assembler compiles some hundred regular expressions per source line (bmline.MatchArg); with the
+// default GC target a third of the run is collector work. Not a correctness knob.
+func init() { debug.SetGCPercent(400) }
 
 const minCompared = 3 // a case with fewer compared values on every output is "short" (inconclusive, not failed)
 
@@ -25,12 +31,22 @@ const minCompared = 3 // a case with fewer compared values on every output is "s
 // before the entry directive is attached to the directive and removed with it).
 var mayReject = []string{"macro:adjacent", "macro:label-on-use", "macro:nested", "dup-label", "trailing-label", "label-before-entry"}
 
-type mode int
+// mode says which recorded defect a campaign judges instead of excluding.
+type mode struct {
+	D6   bool // entry label not on the first instruction
+	Leak bool // a macro with mov-IO expanded in sections of different io modes
+}
 
-const (
-	modeMain  mode = iota // D6 shapes are excluded (counted)
-	modeKnown             // D6 shapes are judged: a mismatch carries the D6 signature
+var (
+	modeMain      = mode{}
+	modeKnownD6   = mode{D6: true}
+	modeKnownLeak = mode{Leak: true}
 )
+
+// leakRepeats: the defect behind modeKnownLeak depends on the iteration order of a Go map inside the
+// assembler, so one evaluation shows it with probability 1/2 (two sections). The known-defect entry
+// assembles the same source that many times and reports the first run that differs.
+const leakRepeats = 10
 
 func fmtStream(xs []uint64, n int) string {
 	if len(xs) > n {
@@ -181,6 +197,19 @@ func evalCase(c Case, m mode) (out pbt.Outcome) {
 			break
 		}
 	}
+	// `mov <reg>, <literal>` also matches the dynamically created rsets5/rsets6/rsets7 unless dynamical
+	// matching is disabled. Without a chooser the assembler asks for one ("a criteria is needed"); with
+	// -chooser-min-word-size every alternative is assembled first and the first one that cannot encode a
+	// literal aborts the whole run (creatorbm.go CodeChoice), so literals >= 32 are refused.
+	if rejectable == "" {
+		switch {
+		case c.Cfg == cfgDefault && feat["mov-literal"]:
+			rejectable = "mov-literal-without-chooser"
+		case (c.Cfg == cfgMinWord || c.Cfg == cfgMinSame || c.Cfg == cfgDefault) && feat["mov-literal>=32"]:
+			rejectable = "mov-literal>=32-with-chooser"
+		}
+	}
+	lab["cfg="+c.Cfg] = true
 	lab[fmt.Sprintf("rsize=%d", rs.Rsize)] = true
 	lab[fmt.Sprintf("cps=%d", len(rs.CPs))] = true
 	lab[fmt.Sprintf("sections=%d", len(rs.SecOrder))] = true
@@ -212,15 +241,39 @@ func evalCase(c Case, m mode) (out pbt.Outcome) {
 			}
 		}
 	}
+	leak := rs.macroIOModes()
 	if d6 {
 		lab["entry-not-first"] = true
-		if m == modeMain {
-			return pbt.Outcome{Excluded: "D6:entry-not-first"}
-		}
-	} else if m == modeKnown {
-		return pbt.Outcome{Excluded: "entry-first"}
 	}
+	if leak {
+		lab["macro:mov-io-in-sync-and-async-sections"] = true
+	}
+	switch {
+	case d6 && !m.D6:
+		return pbt.Outcome{Excluded: "D6:entry-not-first"}
+	case leak && !m.Leak:
+		return pbt.Outcome{Excluded: "macro-lines-shared:iomode-leak"}
+	case m.D6 && !d6:
+		return pbt.Outcome{Excluded: "entry-first"}
+	case m.Leak && !leak:
+		return pbt.Outcome{Excluded: "no-macro-across-iomodes"}
+	}
+	repeats := 1
+	if m.Leak {
+		repeats = leakRepeats
+	}
+	for rep := 0; rep < repeats; rep++ {
+		out = evalOnce(c, m, rs, net, lab, rejectable, d6, leak)
+		if out.Fail != nil || out.Excluded != "" {
+			return out
+		}
+	}
+	return out
+}
 
+func evalOnce(c Case, m mode, rs *refSource, net *refNet, lab map[string]bool, rejectable string, d6, leak bool) pbt.Outcome {
+	feat := rs.Feat
+	_ = feat
 	bm, aerr := assemble(c.Src, c.Cfg)
 	if aerr != nil {
 		if strings.HasSuffix(aerr.Phase, "-panic") {
@@ -300,6 +353,9 @@ func evalCase(c Case, m mode) (out pbt.Outcome) {
 		} else {
 			what = fmt.Sprintf("output o%d: the machine delivers %d values in %d ticks, the source cannot have produced more than %d", extra, len(sim[extra]), c.Ticks, len(ref.Out[extra]))
 		}
+		if leak {
+			return pbt.Outcome{Fail: pbt.Failf("macro-lines-shared:iomode-leak", "%s (a macro that contains `mov` to or from a port is expanded in a sync and in an async section; its lines are shared objects and the io mode of the section processed last is applied to both)\n%s--- source ---\n%s", what, describe(), c.Src)}
+		}
 		if d6 {
 			return pbt.Outcome{Fail: pbt.Failf("D6:entry-ignored", "%s (the entry label is not on the first instruction; execution started at ROM address 0)\n%s--- source ---\n%s", what, describe(), c.Src)}
 		}
@@ -324,8 +380,9 @@ func evalCase(c Case, m mode) (out pbt.Outcome) {
 	return pbt.Outcome{NonTrivial: nt}
 }
 
-func propMain(c Case) pbt.Outcome  { return evalCase(c, modeMain) }
-func propKnown(c Case) pbt.Outcome { return evalCase(c, modeKnown) }
+func propMain(c Case) pbt.Outcome      { return evalCase(c, modeMain) }
+func propKnownD6(c Case) pbt.Outcome   { return evalCase(c, modeKnownD6) }
+func propKnownLeak(c Case) pbt.Outcome { return evalCase(c, modeKnownLeak) }
 
 const ruleCommon = "generated .basm sources: 1..3 romtext sections (entry directive, 1..3 labels per site, counter-bounded loops, conditional/unconditional forward skips, permuted block chains over j/jmp/jz with label operands; mov/rset/cpy/inc/dec/add/mult/clr/nop/noop; sync IO as mov or i2rw/r2owa, each IO followed by 3 non-IO instructions), literals in dec/0d/0u/0x/0b and sized notations, 0-argument macros, 1..3 CPs (sections shared or unused), fan-out 1 bonds CP-CP/BM-CP/CP-BM, registersize in {8,16,32,64}, layout noise (comments, blank lines, tabs, CRLF, meta order); oracle: value streams on every external output equal, prefix-wise, those of a reference interpreter of the text; non-trivial = the interpretation took >=1 backward and >=1 forward jump, executed >=1 pseudo-instruction and >=3 values were compared on some output"
 
@@ -339,7 +396,9 @@ var Props = []*pbt.Entry{
 
 var PropsKnown = []*pbt.Entry{
 	pbt.Def("entry_not_first", ruleCommon+"; the entry label never sits on the first instruction (code that emits a value precedes it): confirms D6, expected to fail with signature D6:entry-ignored",
-		genSource(genOpts{Entry: 1, MaxCPs: 1}), propKnown),
+		genSource(genOpts{Entry: 1, MaxCPs: 1}), propKnownD6),
+	pbt.Def("macro_iomode_leak", ruleCommon+"; one macro that outputs with `mov oK, rX` is expanded in the sync section a CP runs and in an async section: confirms the shared-macro-lines defect, expected to fail with signature macro-lines-shared:iomode-leak (each source is assembled up to 10 times: the defect depends on map iteration order)",
+		genSource(genOpts{Entry: 0, MaxCPs: 1, Leak: true}), propKnownLeak),
 }
 
 func TestProps(t *testing.T) { pbt.RunAll(t, "C05", Props) }
@@ -349,4 +408,52 @@ func TestKnown(t *testing.T) { pbt.RunAll(t, "C05", PropsKnown) }
 
 func TestReplay(t *testing.T) {
 	pbt.ReplayAll(t, "C05", append(append([]*pbt.Entry(nil), Props...), PropsKnown...))
+}
+
+// TestHygiene: thousands of in-process assemblies must not pile up goroutines (every BasmInstance starts
+// a bmreqs server; asm.go stops it) nor leave dynamically created opcodes in the process-wide registry.
+func TestHygiene(t *testing.T) {
+	src := "%section code .romtext iomode:sync\n\tentry start\nstart:\n\tmov r0, 5\nlp:\n\tmov o0, r0\n\tinc r0\n\tnop\n\tnop\n\tj lp\n%endsection\n" +
+		"%meta cpdef cpu romcode: code\n%meta ioatt out0 cp: cpu, index:0, type:output\n%meta ioatt out0 cp: bm, index:0, type:output\n%meta bmdef global registersize:8\n"
+	run := func(n int) {
+		for i := 0; i < n; i++ {
+			cfg := []string{cfgNoDyn, cfgMinWord, cfgDefault}[i%3]
+			bm, err := assemble(src, cfg)
+			if cfg == cfgDefault {
+				if err == nil {
+					t.Fatalf("default configuration accepted mov <reg>, <literal>")
+				}
+				continue
+			}
+			if err != nil {
+				t.Fatalf("%s: %v", cfg, err)
+			}
+			out, _, serr := simulate(bm, gen.Env{}, 40)
+			if serr != nil || len(out) != 1 || len(out[0]) < 3 || out[0][0] != 5 || out[0][1] != 6 {
+				t.Fatalf("%s: streams %v err %v", cfg, out, serr)
+			}
+		}
+	}
+	settle := func() int {
+		n := runtime.NumGoroutine()
+		for i := 0; i < 50; i++ {
+			runtime.Gosched()
+			runtime.GC()
+			if m := runtime.NumGoroutine(); m < n {
+				n = m
+			}
+		}
+		return n
+	}
+	run(10)
+	g0 := settle()
+	ops := pristineOpcodes
+	run(150)
+	g1 := settle()
+	if g1 > g0+4 {
+		t.Fatalf("goroutines grew from %d to %d over 150 assemblies and simulations", g0, g1)
+	}
+	if len(procbuilderAllopcodes()) != ops {
+		t.Fatalf("opcode registry grew from %d to %d", ops, len(procbuilderAllopcodes()))
+	}
 }
